@@ -560,6 +560,19 @@ def _known_redundant(case, subcheck, detail):
             and isinstance(detail, dict) and len(E.text_lines(detail.get('output', ''))) > len(case.get('A', [])))
 
 
+def _known_singular_choice(case, subcheck, detail):
+    """solve() eliminates in floats and takes a pivot of rounding noise (5e-17) for a coefficient: when the variables it
+    chose to solve for are not independent given the others (x4 is forced to 0 by the system, yet x0..x3 are expressed
+    through x4), the solved form carries coefficients of 1e15..1e16 instead of the choice being rejected"""
+    if subcheck not in ('C12.solve_contains', 'C12.solve_sound') or not isinstance(detail, dict):
+        return False
+    import re
+    nums = re.findall(r'(?<![A-Za-z_0-9.])(\d+\.?\d*(?:[eE][-+]?\d+)?)', detail.get('output', '') or '')
+    big = [float(n) for n in nums if float(n) >= 1e12]
+    ins = re.findall(r'(?<![A-Za-z_0-9.])(\d+\.?\d*(?:[eE][-+]?\d+)?)', detail.get('input', '') or '')
+    return bool(big) and all(float(n) < 1e7 for n in ins)
+
+
 # =========================================================================== C12.solve
 @st.composite
 def solve_cases(draw, tier):
@@ -958,4 +971,5 @@ TESTS = [
 KNOWN = {'F10-sign-split-drops-zero-factor': _known_f10,
          'simplify-product-vs-zero-ignores-factor-sign': _known_product_zero,
          'simplify-drops-unsolved-line': _known_unsolved,
-         'solve-redundant-equation-overdetermined-form': _known_redundant}
+         'solve-redundant-equation-overdetermined-form': _known_redundant,
+         'solve-singular-variable-choice-noise-pivot': _known_singular_choice}
